@@ -99,7 +99,10 @@ def askOpen (p : Path) : M (Except FsErr Nat) := fun w =>
   | .opn q r :: t =>
     if q = p then
       match r with
-      | .ok fd => (r, { w with tape := t, s := { w.s with openFds := fd :: w.s.openFds } })
+      | .ok fd =>
+        -- the kernel never hands out a descriptor that is still open
+        if w.s.openFds.contains fd then (.error .other, { w with tape := t, bad := w.bad <|> some "open: the tape answers a descriptor that is already open" })
+        else (r, { w with tape := t, s := { w.s with openFds := fd :: w.s.openFds } })
       | .error _ => (r, { w with tape := t })
     else (.error .other, { w with bad := w.bad <|> some "open: other path than the implementation" })
   | _ => (.error .other, { w with bad := w.bad <|> some "open: the implementation asked something else here" })
@@ -253,6 +256,62 @@ def watchDirectoryFiles (aw : AddWatch) (dirPath : Path) : M (Option Err) := do
           markSeen (if cleanPath == [] then clean path else cleanPath) true
           pure none) files
 
+/-- what the first half of `addWatch` hands to the second: either the function's return value or
+`(name, info, alreadyWatching)` -/
+abbrev Pre := Except (Except Err Path) (Path × KW × Bool)
+
+/-- the symlink branch of `addWatch` (only for paths added with `Add()`): the return value of
+`addWatch`, or `(name, info, fi)` with the link resolved one step -/
+def followLink (name : Path) (info0 : KW) : M (Except (Except Err Path) (Path × KW × Kind)) := do
+  match ← askReadlink name with
+  | .error e => pure (.error (.error (.fs e)))
+  | .ok link0 =>
+    -- (finding F15, repaired: the target is cleaned in both cases; `join` cleans)
+    let link := clean (if isAbs link0 then link0 else join (dir name) link0)
+    let (_, alreadyL) ← byPath link
+    if alreadyL then do
+      -- "Add to watches so we don't get spurious Create events later on when we diff the directories"
+      addLink name 0
+      pure (.error (.ok link))
+    else do
+      match ← askLstat link with
+      | .error e => pure (.error (.error (.fs e)))
+      | .ok fi2 => pure (.ok (link, { info0 with linkName := name }, fi2))
+
+/-- the `if !alreadyWatching { … }` block of `addWatch`: Lstat, sockets and pipes skipped, links
+followed, `unix.Open` -/
+def openNew (name : Path) (info0 : KW) (listDir : Bool) : M Pre := do
+  match ← askLstat name with
+  | .error e => pure (.error (.error (.fs e)))
+  | .ok fi =>
+    if fi == .socket || fi == .fifo then pure (.error (.ok [])) else
+    let r2 ← if !listDir && fi == .symlink then followLink name info0 else pure (.ok (name, info0, fi))
+    match r2 with
+    | .error r => pure (.error r)
+    | .ok (name2, info2, fi2) =>
+      match ← askOpen name2 with
+      | .error e => pure (.error (.error (.fs e)))
+      | .ok fd => pure (.ok (name2, { info2 with wd := fd, isDir := isDirKind fi2 }, false))
+
+/-- the second half of `addWatch`: `register`, `watches.add`, directory handling. `wdf` is
+`watchDirectoryFiles` (with the recursive `addWatch` inside) -/
+def finishAdd (wdf : Path → M (Option Err)) (name : Path) (info : KW) (already : Bool) (flags : BitVec 32) :
+    M (Except Err Path) := do
+  match ← registerAdd info.wd flags with
+  | .error e => do closeFd info.wd; pure (.error (.fs e))
+  | .ok () => do
+    if !already then watchesAdd name info.linkName info.wd info.isDir
+    if info.isDir then
+      let watchDir := (flags &&& NOTE_WRITE) == NOTE_WRITE && (!already || (info.dirFlags &&& NOTE_WRITE) != NOTE_WRITE)
+      if !(← updateDirFlags name flags) then pure (.ok []) else
+      if watchDir then
+        let d := if info.linkName != [] then info.linkName else name
+        match ← wdf d with
+        | some e => pure (.error e)
+        | none => pure (.ok name)
+      else pure (.ok name)
+    else pure (.ok name)
+
 /-- `addWatch(name, flags, listDir)`; the fuel bounds the recursion through `watchDirectoryFiles`
 (the real depth is at most 2: an internal watch never lists its own directory) -/
 def addWatch : Nat → AddWatch
@@ -262,52 +321,10 @@ def addWatch : Nat → AddWatch
     if s.closed then pure (.error .closed) else
     let name := clean name0
     let (info0, already0) ← byPath name
-    -- the part that runs only for a path that is not watched yet: (name, info, alreadyWatching) or a return value
-    let pre : Except (Except Err Path) (Path × KW × Bool) ←
-      if already0 then pure (.ok (name, info0, true)) else do
-        match ← askLstat name with
-        | .error e => pure (.error (.error (.fs e)))
-        | .ok fi =>
-          if fi == .socket || fi == .fifo then pure (.error (.ok [])) else
-          -- follow symlinks, but only for paths added with Add()
-          let r2 : Except (Except Err Path) (Path × KW × Kind) ←
-            if !listDir && fi == .symlink then do
-              match ← askReadlink name with
-              | .error e => pure (.error (.error (.fs e)))
-              | .ok link0 =>
-                let link := if isAbs link0 then link0 else join (dir name) link0
-                let (_, alreadyL) ← byPath link
-                if alreadyL then do
-                  addLink name 0
-                  pure (.error (.ok link))
-                else do
-                  match ← askLstat link with
-                  | .error e => pure (.error (.error (.fs e)))
-                  | .ok fi2 => pure (.ok (link, { info0 with linkName := name }, fi2))
-            else pure (.ok (name, info0, fi))
-          match r2 with
-          | .error r => pure (.error r)
-          | .ok (name2, info2, fi2) =>
-            match ← askOpen name2 with
-            | .error e => pure (.error (.error (.fs e)))
-            | .ok fd => pure (.ok (name2, { info2 with wd := fd, isDir := isDirKind fi2 }, false))
+    let pre : Pre ← if already0 then pure (.ok (name, info0, true)) else openNew name info0 listDir
     match pre with
     | .error r => pure r
-    | .ok (name, info, already) =>
-      match ← registerAdd info.wd flags with
-      | .error e => do closeFd info.wd; pure (.error (.fs e))
-      | .ok () => do
-        if !already then watchesAdd name info.linkName info.wd info.isDir
-        if info.isDir then
-          let watchDir := (flags &&& NOTE_WRITE) == NOTE_WRITE && (!already || (info.dirFlags &&& NOTE_WRITE) != NOTE_WRITE)
-          if !(← updateDirFlags name flags) then pure (.ok []) else
-          if watchDir then
-            let d := if info.linkName != [] then info.linkName else name
-            match ← watchDirectoryFiles (addWatch fuel) d with
-            | some e => pure (.error e)
-            | none => pure (.ok name)
-          else pure (.ok name)
-        else pure (.ok name)
+    | .ok (name, info, already) => finishAdd (watchDirectoryFiles (addWatch fuel)) name info already flags
 
 def fuel : Nat := 6
 
